@@ -349,7 +349,10 @@ def model_run(program, resume_values=None, max_steps=64):
             index, args, kwargs = ret['to'], list(ret.get('args', [])), dict(ret.get('kwargs', {}))
             continue
         if kind == 'wait':
-            value = resume_values[waits] if resume_values is not None and waits < len(resume_values) else [waits, 0]
+            if resume_values == 'trace':
+                value = ['rv', len(trace)]
+            else:
+                value = resume_values[waits] if resume_values is not None and waits < len(resume_values) else ['rv', waits, 0]
             waits += 1
             index, args, kwargs = ret['to'], [value], {}
             continue
